@@ -15,7 +15,7 @@ import json,sys
 m=json.load(open('$d/meta.json'))
 by=m.get('checks_that_report_it') or m.get('confirmed_by_me',{}).get('checks_that_report_it') or []
 print(' '.join(by))"); fi
-  res=$(tools/try_patch.sh $d/patch.diff $props 2>&1 | grep "^== ")
+  res=$(tools/try_patch_par.sh $d/patch.diff $props 2>&1 | grep "^== ")
   bad=$(echo "$res" | grep -v "exit=$want" | tr '\n' ' ')
   if [ -n "$bad" ]; then echo "SELFTEST-FAIL $n (want exit=$want): $bad"; fail=1; else echo "ok $n ($(echo "$res" | wc -l) checks, all exit=$want)"; fi
 done
